@@ -246,7 +246,7 @@ def run(env):
         if env.out_of_time():
             env.notes.append("time cap reached")
             break
-        g = gen_types.Gen(rng, max_depth=rng.choice([2, 3, 4]))
+        g = gen_types.Gen(rng, max_depth=rng.choice([2, 3, 4]), pattern_overlap=True)
         k = rng.random()
         if k < 0.15:
             t = rng.choice(small)(g)
